@@ -80,7 +80,7 @@ def run(ctx):
                         "massive intrinsic LO rows are outside the textbook comparison"]
     # 1. Spec |= P
     for part in ("nc", "cc"):
-        ctx.tlc_check("MC_Lattice", f"MC_C02_{part}_{ctx.tier}.cfg", must_cover=("Pick2",))
+        ctx.tlc_check("MC_Lattice", f"MC_C02_{part}_{ctx.tier}.cfg", coverage=False, min_states=500, min_depth=3)
     # 2. obligations from the spec
     obs = ctx.tlc_emit("Emit_C02", "Emit_C02_quick.cfg" if ctx.quick else "Emit_C02_thorough.cfg")
     for o in obs:
